@@ -115,7 +115,12 @@ EXPORT errno_t _strnset_s_chk(char *restrict dest, rsize_t dmax, int value, rsiz
 #ifdef SAFECLIB_STR_NULL_SLACK
     /* null slack to clear any data */
     dmax -= (rsize_t)(dest - orig_dest);
-    if (dmax && !*dest)
+    /* skip the rest of a string longer than n */
+    while (dmax && *dest) {
+        dmax--;
+        dest++;
+    }
+    if (dmax)
         memset(dest, 0, dmax);
 #endif
 
